@@ -2,6 +2,8 @@
   C12 — a failed parse reports the farthest failure position and the exact expected set.
 -/
 import PigeonVerif.Properties.C11
+import PigeonVerif.Properties.C01
+import PigeonVerif.Proofs.FailLog
 
 namespace PV
 
@@ -94,7 +96,7 @@ theorem C12_failAt_is_failStep (s : PState) (fail : Bool) (pos : Pos) (want : St
         failStep (s.maxFailPos.off, s.maxFailExpected)
           (pos.off, if s.maxFailInvert then "!" ++ want else want)
       else (s.maxFailPos.off, s.maxFailExpected) := by
-  unfold failAt failStep
+  unfold failAt failAtCore failStep
   by_cases h : (fail == s.maxFailInvert) = true
   · simp only [h, if_true]
     by_cases h1 : pos.off < s.maxFailPos.off
@@ -108,7 +110,7 @@ theorem C12_failAt_is_failStep (s : PState) (fail : Bool) (pos : Pos) (want : St
 theorem C12_failAt_pos (s : PState) (fail : Bool) (pos : Pos) (want : String)
     (h : (fail == s.maxFailInvert) = true) (h2 : pos.off > s.maxFailPos.off) :
     (failAt s fail pos want).maxFailPos = pos := by
-  unfold failAt
+  unfold failAt failAtCore
   have : ¬ pos.off < s.maxFailPos.off := by omega
   simp [h, h2, this]
 
@@ -228,6 +230,193 @@ theorem C12_D30_memo_hit_drops_an_expected_terminal :
     errsOf (parse (envD30 false) 40) = some ["1:1 (0): no match found, expected: \"a\" or \"q\""] ∧
     errsOf (parse (envD30 true) 40) = some ["1:1 (0): no match found, expected: \"q\""] := by
   decide
+
+end WitnessC12
+
+end RT
+
+/-! ### the report is a function of the terminal evaluations of the PEG semantics
+
+  So far: `failAt` folds to max / filter (`C12_bookkeeping`) and the message is sorted, duplicate-free, EOF last.
+  What follows closes the gap between the two: WHICH events reach `failAt`.
+
+  * In every configuration (memoization, left recursion, budget, all template switches) the record
+    `(maxFailPos, maxFailExpected)` is the bookkeeping `book` of the ghost log of terminal evaluations
+    (`Proofs/FailLog.lean`: `parseExpr_fi`).
+  * `book` is the declarative max / filter over the evaluations that count (`book_declarative`).
+  * In the plain configuration the log IS the list of terminal evaluations of the PEG specification `Spec.eval`
+    (the refinement theorem carries the log: `absW` has the field `attempts`, `Spec.note` writes it, the negation
+    parity is part of `Spec.Ctx`), so the error `Parse` returns for an input that does not match is a function of
+    the specification's run alone (`C12_report_is_declarative`).
+-/
+
+/-- the events the report is made of, in order of occurrence: (offset, label) of every terminal evaluation that
+    failed outside, or matched inside, an odd number of `!` predicates -/
+def events (log : List Attempt) : List (Nat × String) :=
+  (log.reverse.filter Attempt.counts).map (fun a => (a.pos.off, a.label))
+
+theorem events_cons (a : Attempt) (log : List Attempt) :
+    events (a :: log) = events log ++ (if a.counts then [(a.pos.off, a.label)] else []) := by
+  unfold events
+  simp only [List.reverse_cons, List.filter_append, List.map_append]
+  by_cases h : a.counts = true <;> simp [List.filter, h]
+
+/-- on offsets and labels `book` is the fold of `failStep` over the events -/
+theorem book_failStep (p0 : Pos) (log : List Attempt) :
+    ((book p0 log).1.off, (book p0 log).2) = (events log).foldl failStep (p0.off, []) := by
+  induction log with
+  | nil => rfl
+  | cons a log ih =>
+    rw [events_cons, List.foldl_append, ← ih]
+    show ((noteStep (book p0 log) a).1.off, (noteStep (book p0 log) a).2) = _
+    unfold noteStep
+    by_cases h : a.counts = true
+    · simp only [h, if_true, List.foldl_cons, List.foldl_nil, failStep]
+      by_cases h1 : a.pos.off < (book p0 log).1.off
+      · simp [h1]
+      · by_cases h2 : a.pos.off > (book p0 log).1.off
+        · simp [h1, h2]
+        · simp [h1, h2]
+    · simp [h]
+
+/-- the recorded position is the start position or the position of an evaluation that counts -/
+theorem book_pos (p0 : Pos) (log : List Attempt) :
+    (book p0 log).1 = p0 ∨ ∃ a ∈ log, a.counts = true ∧ a.pos = (book p0 log).1 := by
+  induction log with
+  | nil => exact Or.inl rfl
+  | cons a log ih =>
+    show (noteStep (book p0 log) a).1 = p0 ∨ ∃ b ∈ a :: log, b.counts = true ∧ b.pos = (noteStep (book p0 log) a).1
+    have keep : (book p0 log).1 = p0 ∨ ∃ b ∈ a :: log, b.counts = true ∧ b.pos = (book p0 log).1 := by
+      rcases ih with h | ⟨b, hb, hc, hp⟩
+      · exact Or.inl h
+      · exact Or.inr ⟨b, List.mem_cons_of_mem _ hb, hc, hp⟩
+    unfold noteStep
+    by_cases h : a.counts = true
+    · simp only [h, if_true]
+      by_cases h1 : a.pos.off < (book p0 log).1.off
+      · simpa [h1] using keep
+      · by_cases h2 : a.pos.off > (book p0 log).1.off
+        · simp only [h1, h2, if_true, if_false]
+          exact Or.inr ⟨a, List.mem_cons_self, h, rfl⟩
+        · simpa [h1, h2] using keep
+    · simpa [h] using keep
+
+/-- **C12 (d) — the bookkeeping, declaratively.** Whatever the log: the recorded offset is the greatest offset of
+    any evaluation that counts (or the start offset when there is none beyond it), the expected labels are exactly
+    the labels of the counting evaluations at that offset, in order of occurrence, and the recorded position is that
+    of such an evaluation (or the start position) - so its line and column are the ones the reader computed for that
+    offset (`C02_pos_pure`: a pure function of input and offset). -/
+theorem book_declarative (p0 : Pos) (log : List Attempt) :
+    (book p0 log).1.off = farthest p0.off (events log) ∧
+    (book p0 log).2.reverse = labelsAt (farthest p0.off (events log)) (events log) ∧
+    ((book p0 log).1 = p0 ∨ ∃ a ∈ log, a.counts = true ∧ a.pos = (book p0 log).1) := by
+  have h := book_failStep p0 log
+  rw [C12_bookkeeping] at h
+  simp only [Prod.mk.injEq] at h
+  obtain ⟨h1, h2⟩ := h
+  refine ⟨h1, ?_, book_pos p0 log⟩
+  rw [h2]; simp
+
+namespace RT
+
+/-- the position of the first rune: where `parse` initialises `maxFailPos` -/
+def firstPos (E : Env) : Pos := (nextPt E.input pt0).pos
+
+theorem startState_pos (E : Env) : (startState E).pt.pos = firstPos E := by
+  show (read E (initState E)).pt.pos = _
+  rw [read_pt]; rfl
+
+/-- **C12 (e) — every configuration.** Whatever the grammar, code, flags and options (Memoize, left recursion, a
+    budget): in the state the start rule returns (or panics in), the farthest-failure record is the bookkeeping of the
+    log of terminal evaluations the parser performed. -/
+theorem C12_record_is_book_of_log (E : Env) (fuel : Nat) (r : Rule) :
+    (parseRuleWrap E (parseExpr E fuel) fuel r (startState E)).FIOK (firstPos E) := by
+  have h0 : FI (firstPos E) (startState E) := by rw [← startState_pos]; exact startState_fi E
+  exact ruleWrap_fi (parseExpr_fi E (firstPos E) fuel) fuel r (startState E) h0
+
+/-- the error prefix of an error raised outside any rule -/
+def topPrefix (E : Env) (pos : Pos) : String := Spec.errPrefix E { rule := none, handlers := [] } pos
+
+/-- **C12 (f) — the report is declarative.** Plain configuration (no Memoize: finding D30; no budget; no
+    left-recursive rules), any grammar, code environment, input and depth. If the PEG specification `Spec.parse`
+    says the start rule does not match and no error was recorded (no code block returned one, no undecodable byte was
+    read), then `Parse` returns exactly one error, and that error is computed from the specification's log of terminal
+    evaluations `w.attempts` alone: position and expected labels are `book (firstPos E) w.attempts`, i.e.
+    (`book_declarative`) the greatest offset at which a terminal failed outside - or matched inside - an odd number of
+    `!`, and the labels of exactly those evaluations at that offset. -/
+theorem C12_report_is_declarative (E : Env) (hp : Plain E) (fuel : Nat) (first : Rule) (rest : List Rule)
+    (hr : E.rules = first :: rest) (r : Rule) (hf : E.findRule (entryName E first) = some r)
+    (env : List (String × Val)) (w : Spec.World)
+    (hs : Spec.parse E fuel = some (.fail env w)) (he : w.errs = []) :
+    ∃ s, parse E fuel =
+      .ret .nil [topPrefix E (book (firstPos E) w.attempts).1 ++ ": " ++
+                 (noMatchMessage (book (firstPos E) w.attempts).2.reverse).1] s := by
+  obtain ⟨h1, h2⟩ := C01_parse_is_peg E hp fuel first rest hr r hf
+  rw [hs] at h1
+  have h1' := Option.some.inj h1
+  rw [h2]
+  have hg := C01_start_is_good E r
+  have hfr := parseExpr_frame E fuel r.expr _ hg.memo
+  have hfi : FI (firstPos E) (pushV { startState E with rstack := [r] }) := by
+    have h0 : FI (firstPos E) (startState E) := by rw [← startState_pos]; exact startState_fi E
+    exact h0.congr rfl
+  have hfi2 := parseExpr_fi E (firstPos E) fuel r.expr _ hfi
+  have hrs0 : (startState E).rstack = [] := by simp [startState, initState]
+  -- name the state in which the entry rule's expression is evaluated
+  obtain ⟨s0, hs0⟩ : ∃ s0 : PState, s0 = pushV { startState E with rstack := [r] } := ⟨_, rfl⟩
+  have a1 : Spec.Res.fail env w = abs (parseExpr E fuel r.expr s0) := by subst hs0; exact h1'
+  have a2 : (parseExpr E fuel r.expr s0).Sat (fun _ ok s' => Framed E s0 ok s') (fun s' => PanicPost E s0 s') := by
+    subst hs0; exact hfr
+  have a3 : (parseExpr E fuel r.expr s0).FIOK (firstPos E) := by subst hs0; exact hfi2
+  have a4 : parseRule E (parseExpr E fuel) r (startState E) =
+      (parseExpr E fuel r.expr s0).bind (fun v ok s2 => .done v ok { popV s2 with rstack := (popV s2).rstack.tail }) := by
+    subst hs0; unfold parseRule; simp only [wrap_eq hp.nomemo, hrs0]
+  have a5 : s0.rstack = [r] := by subst hs0; rfl
+  rw [a4]
+  revert a1 a2 a3
+  generalize parseExpr E fuel r.expr s0 = o
+  cases o with
+  | oof => intro h; cases h
+  | panic p s1 => intro h; cases h
+  | done v ok s1 =>
+    cases ok with
+    | true => intro h; cases h
+    | false =>
+      intro h hfr hfi2
+      simp only [abs, Spec.Res.fail.injEq] at h
+      obtain ⟨_, hw⟩ := h
+      have herrs : s1.errs = [] := by
+        have : (absW s1).errs = w.errs := by rw [hw]
+        simpa [absW, he] using this
+      have hatt : s1.attempts = w.attempts := by
+        have : (absW s1).attempts = w.attempts := by rw [hw]
+        simpa [absW] using this
+      have hrs : s1.rstack = [r] := by
+        have := hfr.stk.rstack
+        rw [a5] at this; exact this
+      have hbk : (s1.maxFailPos, s1.maxFailExpected) = book (firstPos E) w.attempts := by
+        rw [← hatt]; exact hfi2
+      have hb1 : s1.maxFailPos = (book (firstPos E) w.attempts).1 := by rw [← hbk]
+      have hb2 : s1.maxFailExpected = (book (firstPos E) w.attempts).2 := by rw [← hbk]
+      simp only [Outcome.bind]
+      rw [C12_single E v _ (by simpa [popV] using herrs)]
+      simp only [popV, errPrefix, hrs, List.tail_cons, topPrefix, Spec.errPrefix, hb1, hb2]
+      exact ⟨_, rfl⟩
+
+/-! #### the theorem is not vacuous: a failing parse, its log and its report, evaluated by the kernel -/
+
+namespace WitnessC12
+
+/-- `S <- !X "q" / X "z"` ; `X <- "a"` on `b` (the grammar of D30, Memoize off) -/
+theorem spec_run :
+    (match Spec.parse (envD30 false) 40 with
+     | some (.fail _ w) => some (w.errs, events w.attempts)
+     | _ => none) = some ([], [(0, "\"q\""), (0, "\"a\"")]) := by
+  decide
+
+/-- ... and the report `Parse` makes of it (`C12_D30_memo_hit_drops_an_expected_terminal`, first half) -/
+example : errsOf (parse (envD30 false) 40) = some ["1:1 (0): no match found, expected: \"a\" or \"q\""] :=
+  C12_D30_memo_hit_drops_an_expected_terminal.1
 
 end WitnessC12
 
